@@ -481,7 +481,7 @@ class Spec:
 
 # --------------------------------------------------------------------------- generators
 
-ACTS = ["none", "none", "none", "self", "other:0", "other:1", "other:2", "redef:3", "redef:5", "raise"]
+ACTS = ["none"] * 10 + ["self", "other:0", "other:1", "other:2", "redef:3", "redef:5", "redef:3", "raise"]
 
 
 def gen_script(rng, n, interval, ntimers_hint):
@@ -489,7 +489,7 @@ def gen_script(rng, n, interval, ntimers_hint):
     unit = interval if interval else 7
     for _ in range(n):
         dur = rng.choice([0, 0, 1, unit // 3, unit // 3 + 1, unit - 1 if unit > 1 else 0, unit, unit + unit // 3, 2 * unit + 1])
-        ret = rng.choice([1, 1, 1, 1, 0])
+        ret = rng.choice([1] * 9 + [0])
         if ret and rng.random() < 0.15:
             ret = rng.choice([2, 7])
         act = rng.choice(ACTS)
@@ -520,7 +520,7 @@ def gen_case(rng, long=False):
     for i in range(nt):
         iv = rng.choice(ivs)
         intervals.append(iv)
-        steps.append(["create", iv, gen_script(rng, rng.randrange(1, 9 if long else 6), iv, nt)])
+        steps.append(["create", iv, gen_script(rng, rng.randrange(2, 12 if long else 8), iv, nt)])
         if rng.random() < 0.5:
             steps.append(["advance", rng.choice([1, 2, 3, 100, SEC // 2])])
     npass = rng.randrange(3, 30 if long else 12)
